@@ -21,16 +21,8 @@ func main() {
 		return
 	}
 	if os.Getenv("C19_SHARD") != "" {
-		if pf := os.Getenv("C19_PROF"); pf != "" {
-			startProfile(pf)
-		}
 		shardMain()
 		return
-	}
-	if pf := os.Getenv("C19_PROF"); pf != "" {
-		stop := startProfile(pf)
-		defer stop()
-		_ = stop
 	}
 	harness.Main("C19", "exploration",
 		harness.Layer{Name: "expr", Run: layerExpr},
@@ -50,6 +42,7 @@ func rules(h *harness.H) {
 	h.Assume("loop semantics (range/conditional/infinite for, break, continue) come from docs/site/.../arc/reference/loops.mdx: spec.md has no loop section (it says 'No loops') although the property statement lists bounded loops")
 	h.Assume("a WASM trap is the accepted outcome where spec.md defines a runtime error (integer division/modulo by zero)")
 	h.Assume("wazero runs with RuntimeConfigCompiler (as core/pkg/service/arc/runtime/task.go) plus WithCloseOnContextDone so that a non-terminating call becomes an inconclusive watchdog result instead of hanging the check")
+	h.Assume("one wazero runtime with the production host modules (time, channels, stateful, series, strings, math, errors) per worker process; every compiled program is instantiated into it as its own guest module and every call sequence gets a fresh stateful node key (production builds one runtime per program)")
 	h.SetExtra("spec_silent", []string{
 		"int-div-negative / int-mod-negative: rounding of / and sign of % with a negative operand",
 		"int-min-div-minus-one: overflowing signed division",
@@ -69,21 +62,21 @@ func rules(h *harness.H) {
 }
 
 func init() {
-	layerDefs["expr"] = layerDef{1500, 120000, func(r *prng.R, c int) progSpec {
+	layerDefs["expr"] = layerDef{1500, 80000, func(r *prng.R, c int) progSpec {
 		p := &Prog{}
 		for i := 0; i < 4; i++ {
 			p.Funcs = append(p.Funcs, genExprFunc(r, fmt.Sprintf("f%d", i)))
 		}
 		return progSpec{prog: p, nvec: 40}
 	}}
-	layerDefs["stmt"] = layerDef{1500, 100000, func(r *prng.R, c int) progSpec {
+	layerDefs["stmt"] = layerDef{1500, 60000, func(r *prng.R, c int) progSpec {
 		p := &Prog{}
 		for i := 0; i < 2; i++ {
 			p.Funcs = append(p.Funcs, genStmtFunc(r, fmt.Sprintf("f%d", i), false))
 		}
 		return progSpec{prog: p, nvec: 24}
 	}}
-	layerDefs["state"] = layerDef{700, 50000, func(r *prng.R, c int) progSpec {
+	layerDefs["state"] = layerDef{700, 30000, func(r *prng.R, c int) progSpec {
 		p := &Prog{}
 		for i := 0; i < r.Range(1, 2); i++ {
 			p.Funcs = append(p.Funcs, genStmtFunc(r, fmt.Sprintf("f%d", i), true))
